@@ -111,7 +111,41 @@ impl Svc {
         }))
     }
     /// `bust`: make the text unique so that the instance parses it against its current model
+    /// reads the rows of an entity. One statement can select about 60 fields (each selection is a pair of
+    /// arguments of SQLite's json_object, limited to 127 arguments): wider entities are read in several
+    /// statements whose rows are merged by id
     fn query(&mut self, entity: &str, fields: &[String], bust: bool) -> Result<Value, String> {
+        if fields.len() <= 40 {
+            return self.query_part(entity, fields, bust);
+        }
+        let mut merged: Vec<Value> = vec![];
+        for (i, chunk) in fields.chunks(40).enumerate() {
+            let part = self.query_part(entity, chunk, bust)?;
+            let list = match part {
+                Value::Array(l) => l,
+                other => return Ok(other),
+            };
+            if i == 0 {
+                merged = list;
+            } else {
+                if list.len() != merged.len() {
+                    return Err(format!("{} rows, then {} rows for the same entity", merged.len(), list.len()));
+                }
+                for (m, row) in merged.iter_mut().zip(list) {
+                    if m.get("id") != row.get("id") {
+                        return Err("rows returned in another order".to_string());
+                    }
+                    if let (Some(mo), Value::Object(ro)) = (m.as_object_mut(), row) {
+                        for (k, v) in ro {
+                            mo.insert(k, v);
+                        }
+                    }
+                }
+            }
+        }
+        Ok(Value::Array(merged))
+    }
+    fn query_part(&mut self, entity: &str, fields: &[String], bust: bool) -> Result<Value, String> {
         let mut q = format!("query {{ {}(order_by(id asc)) {{ id {} }} }}", entity, fields.join(" "));
         if bust {
             self.qcount += 1;
